@@ -126,6 +126,13 @@ Theorem C10_transpose_ns_total_le : forall (s : seq) (k lo hi : Z) (tc : bool) (
 Proof. exact transpose_ns_total_le. Qed.
 Print Assumptions C10_transpose_ns_total_le.
 
+(** [ext] (used by C11) a well-formed sequence stays well-formed: note times inside the new total_time,
+    no negative event time. *)
+Theorem C10_transpose_ns_wf : forall (s : seq) (k lo hi : Z) (tc : bool) (r : seq) (deleted : Z),
+  seq_wf s -> transpose_ns s k lo hi tc = Some (r, deleted) -> seq_wf r.
+Proof. exact transpose_ns_wf. Qed.
+Print Assumptions C10_transpose_ns_wf.
+
 (** melody_transpose_fold: specials untouched; every pitch keeps pitch class (p + k) mod 12;
     a pitch already in range is exactly p + k; with max - min >= 12 everything lands in [min, max). *)
 Theorem C10_melody_transpose_fold : forall (k lo hi : Z) (evs : list Z),
@@ -161,6 +168,16 @@ Theorem C10_squash_spec : forall (lo hi : Z) (key : option Z) (evs : list Z),
   end.
 Proof. exact squash_spec. Qed.
 Print Assumptions C10_squash_spec.
+
+(** [ext] squash centres the melody: before folding, the centre of the transposed melody is within
+    half an octave of the centre of [min_note, max_note) (centres doubled). *)
+Theorem C10_squash_centered : forall (lo hi to_key : Z) (evs : list Z) (x : Z) (rest : list Z),
+  filter (fun e => (MIN_MIDI_PITCH <=? e) && (e <=? MAX_MIDI_PITCH)) evs = x :: rest ->
+  let amount := fst (mel_squash lo hi (Some to_key) evs) in
+  let melody_center2 := zmin_list x rest + zmax_list x rest in
+  Z.abs ((lo + hi - 1) - (melody_center2 + 2 * amount)) <= 12.
+Proof. exact squash_centered. Qed.
+Print Assumptions C10_squash_centered.
 
 (** ChordProgression.transpose: every event related by [chord_transpose_hom]; error iff a figure does not parse. *)
 Theorem C10_progression_related : forall (k : Z) (evs evs' : list (list Z)),
@@ -224,17 +241,29 @@ Example C10_tpc_nonvacuous :
 Proof. repeat split; reflexivity. Qed.
 Print Assumptions C10_tpc_nonvacuous.
 
-(* F#m7(b5)/A up 3: root A, bass C, pitches {9,0,3,7}, quality diminished (3) before and after *)
+(* F#m7(b5)/A up 3 is Am7(b5)/C: pitch classes {6,9,0,4} -> {9,0,3,7}, diminished before and after
+   (kind and modification indices are searched for in the regenerated tables) *)
 Example C10_chord_nonvacuous :
-  let c := mkChord (SF, 1) 13 [(5, 5)] (Some (SA, 0)) in
-  transpose_chord c 3 = Some (mkChord (SA, 0) 13 [(5, 5)] (Some (SC, 0))) /\
-  chord_pitches c = Some [6; 9; 0; 4] /\ chord_quality c = Some CHORD_QUALITY_DIMINISHED /\
-  chord_pitches (mkChord (SA, 0) 13 [(5, 5)] (Some (SC, 0))) = Some [9; 0; 3; 7] /\
-  chord_of_code (code_of_chord c) = Some c /\
-  (* an added degree that is already present is a ChordSymbolError before and after *)
-  chord_pitches (mkChord (SC, 0) 0 [(0, 3)] None) = None.
-Proof. repeat split; reflexivity. Qed.
+  exists kind mi,
+    let c := mkChord (SF, 1) kind [(mi, 5)] (Some (SA, 0)) in
+    let c' := mkChord (SA, 0) kind [(mi, 5)] (Some (SC, 0)) in
+    transpose_chord c 3 = Some c' /\
+    chord_pitches c = Some [6; 9; 0; 4] /\ chord_quality c = Some CHORD_QUALITY_DIMINISHED /\
+    chord_pitches c' = Some [9; 0; 3; 7] /\ chord_quality c' = Some CHORD_QUALITY_DIMINISHED /\
+    chord_of_code (code_of_chord c) = Some c.
+Proof. exact chord_example. Qed.
 Print Assumptions C10_chord_nonvacuous.
+
+(* the error branch: an added degree that is already present is a ChordSymbolError for the pitch
+   query before and after, while the transposition itself succeeds *)
+Example C10_chord_error_nonvacuous :
+  exists kind mi,
+    let c := mkChord (SC, 0) kind [(mi, 3)] None in
+    chord_of_code (code_of_chord c) = Some c /\ chord_pitches c = None /\
+    transpose_chord c 1 = Some (mkChord (SD, -1) kind [(mi, 3)] None) /\
+    chord_pitches (mkChord (SD, -1) kind [(mi, 3)] None) = None.
+Proof. exact chord_error_example. Qed.
+Print Assumptions C10_chord_error_nonvacuous.
 
 (* one note kept and shifted, one deleted at the upper edge, one drum kept outside the range,
    the key wraps from B to C, total_time shrinks to the latest kept end *)
